@@ -974,7 +974,7 @@ func TestVerifC15ACL(t *testing.T) {
 	rep.SetRule("Policy sets are generated from the seed: admin holds every line, 'stranger' none, c1..c3 each an independent random subset (density 1/4, 1/2 or 3/4) of {11 documented actions} x {3 live streams, their subjects, 2 deletable and 2 creatable stream names, '*', __cursors, a group id}. For every method of client.APIServer (listed by reflection; a method without a driver fails the run) and every request shape one denied and one allowed case (plus some undetermined ones) are chosen among clients x targets and executed in seeded order on one server; each policy set after the first is installed by rewriting the file and a real SIGHUP. A case is non-trivial when its decision is determined by the documented contract and the shape's precondition (paused partition, existing group subscriber, stored cursor, existing member) was established; signature = method/shape/decision.")
 	c15Assumptions(rep)
 	methods := c15CheckMethodCoverage(rep)
-	sets := kit.Scale(50, 600)
+	sets := kit.Scale(40, 600)
 	sets = kit.EnvInt("C15_SETS", sets)
 	base := kit.NewRNG(kit.Mix(kit.Seed(), 0xc15a))
 	var w *c15World
